@@ -503,3 +503,14 @@ Proof.
   apply (proj2 (memN_In _ _)) in Hi. rewrite Hi in Hc. rewrite forallb_forall in Hc. specialize (Hc j Hj).
   apply (proj2 (memN_In _ _)) in Hdep. rewrite Hdep in Hc. cbn in Hc. now apply negb_true_iff in Hc.
 Qed.
+
+(* with ordered shutdown off the monitor does not constrain anything *)
+Theorem C12_unordered_thm : forall cs evs, holds_C12 false cs evs = true.
+Proof.
+  intros cs evs. unfold holds_C12, holds.
+  assert (Hall : forall l o k, mon_run cs (mon_C12 false cs) o l k = None).
+  { induction l as [|e l IH]; intros o k; [reflexivity|]. cbn.
+    assert (Hm : mon_C12 false cs o e = true) by (unfold mon_C12; destruct (snd e); reflexivity).
+    rewrite Hm. apply IH. }
+  now rewrite Hall.
+Qed.
